@@ -218,6 +218,14 @@ func (f *Interface) handleOutsideRelayPacket(hostinfo *HostInfo, via ViaSender, 
 		}
 		f.readOutsidePackets(via, signedPayload, rxc)
 	case ForwardingType:
+		if !f.relayManager.GetAmRelay() {
+			// relay.am_relay can be turned off by a reload, relays that were established before that must stop too
+			if f.l.Enabled(context.Background(), slog.LevelDebug) {
+				hostinfo.logger(f.l).Debug("Not forwarding relay packet, am_relay is false", "relayTo", relay.PeerAddr)
+			}
+			return
+		}
+
 		// Find the target HostInfo relay object
 		targetHI, targetRelay, err := f.hostMap.QueryVpnAddrsRelayFor(hostinfo.vpnAddrs, relay.PeerAddr)
 		if err != nil {
